@@ -155,7 +155,7 @@ type liveResult struct {
 
 func runC14(cfg *config, res *monitor.Result) {
 	debug.SetGCPercent(-1) // keep the pools from being drained so that reuse really happens
-	nseq := 2000
+	nseq := 5000
 	if cfg.thorough() {
 		nseq = 100000
 	}
